@@ -6,7 +6,7 @@ import random, json, sys, os, glob, ast, re
 from ..harness import coq, impl, pygen
 
 pid = 'C16'
-gen_modules = ['tr_lintdriver', 'tr_rules', 'tr_rest_lintcontract', 'tr_rest_lintrules', 'tr_rest_lintglue', 'tr_rest_linttables']
+gen_modules = ['tr_lintdriver', 'tr_rules', 'tr_rest_lintcontract', 'tr_rest_lintrules', 'tr_rest_lintglue', 'tr_rest_linttables', 'tr_rest_climain', 'tr_rest_lintmisc', 'tr_rest_stubfile']
 model_targets = ['Sem/LintDriver.v']
 hand_modelled = ['coq/Sem/LintDriver.v: Checker.get_errors (de-duplication, noqa filter), Extractor._ensure_node_info, LintCommand.__call__ (hand-written; source pinned by '
                  'tools/py2coq/lintdriver_pins.json); the noqa regex and the rules themselves are oracles of the driver model (their findings are its input)',
